@@ -1,6 +1,6 @@
 import DigModel.Proofs.Rollback
 import DigModel.Proofs.DeferSim
-import DigModel.Proofs.DecoCommute
+import DigModel.Proofs.DecoCommuteProgram
 /-
   C16 — Registration order and verification timing do not matter (verification-timing half).
 
@@ -35,7 +35,8 @@ import DigModel.Proofs.DecoCommute
   nodes, through parsing, registration, the verification loop and every roll-back), so a Provide and an adjacent
   Decorate whose decorator has no value-group parameter (its parse adds no graph node) can be swapped — accepted or
   rejected, whatever the scopes and options: the same two answers and the very same container, hence the same
-  outcome of everything that follows; and so can the creation of a child scope and such a Decorate on an existing scope
+  outcome of everything that follows — also inside any history (`C16_history_provide_decorate_swap_partial`, no
+  callbacks: a callback remembers the number of the operation that registered it); and so can the creation of a child scope and such a Decorate on an existing scope
   (`C16_scope_and_decorate_commute_partial`).  Swapping two Provides, or a Decorate with value-group parameters, changes node
   indices and the order of graph holders; that needs a simulation up to a renaming through the whole resolver and is
   not proved.
@@ -116,6 +117,23 @@ theorem C16_provide_and_decorate_commute_partial (ctx : Ctx) (fP fD : Fn) (st : 
     (apiDecorate ctx fD (apiProvide ctx fP st iP sP o).1 iD sD cb info).2 = (apiDecorate ctx fD st iD sD cb info).2 :=
   provide_decorate_swap_noGroup ctx fP fD st iP iD sP sD o cb info h
 
+/-- the first slice **inside a history**: in any program, a Provide and a Decorate (no callbacks; the decorator has no
+    value-group parameter) that stand next to each other can change places — the container at the end of the program
+    is the same and every operation is answered the same, the two answers having changed places with their operations.
+    So every later Invoke, Visualize or registration sees the same verdict and the same wiring. -/
+theorem C16_history_provide_decorate_swap_partial (p : Program) (pre post : List Op) (sP fP sD fD : Nat) (o : ProvideOpts)
+    (info : Bool) (ho : o.cb = false)
+    (hng : ∀ fd, fnOf p.fns fD = some fd → ∀ t ∈ (if fd.variadic then fd.ins.dropLast else fd.ins), noGroupT t = true) :
+    (runProgram { p with ops := pre ++ .provide sP fP o :: .decorate sD fD false info :: post }).1 =
+      (runProgram { p with ops := pre ++ .decorate sD fD false info :: .provide sP fP o :: post }).1 ∧
+    ∃ l1 rP rD l2,
+      (runProgram { p with ops := pre ++ .provide sP fP o :: .decorate sD fD false info :: post }).2 = l1 ++ rP :: rD :: l2 ∧
+      (runProgram { p with ops := pre ++ .decorate sD fD false info :: .provide sP fP o :: post }).2 = l1 ++ rD :: rP :: l2 ∧
+      l1.length = pre.length := by
+  have h := runOps_provide_decorate_swap p.ctx p.fns sP fP sD fD o info ho hng post pre 0 {} []
+  obtain ⟨h1, l1, rP, rD, l2, e1, e2, hl⟩ := h
+  exact ⟨h1, l1, rP, rD, l2, e1, e2, by simpa using hl⟩
+
 /-- a second slice: **creating a child scope and an adjacent Decorate can be swapped** (the decorator has no value-group
     parameter and decorates a scope that exists already): the same answer, the very same container — "creating a
     child scope earlier or later relative to its ancestors' registrations", for decorators -/
@@ -139,6 +157,7 @@ example : ∀ t ∈ [GoT.univ 10, GoT.strct 100 [({ name := "In", exported := tr
 #print axioms C16_defer_changes_nothing
 #print axioms C16_provide_and_decorate_commute_partial
 #print axioms C16_provide_ignores_decorators
+#print axioms C16_history_provide_decorate_swap_partial
 #print axioms C16_scope_and_decorate_commute_partial
 #print axioms C16_eager_always_acyclic
 #print axioms C16_resolver_ignores_flags
